@@ -334,6 +334,7 @@ func ruleC03(prog *Program, rep *Report) {
 	applyParseResults(rep, results, union(kindsAccept, kindsEvents, kindsPanic, map[string]bool{"stale-scratch": true}), "A-agree", 18)
 	sres := exploreFrontEnds(prog, senFrontEnds, []bool{false, true}, true)
 	applyParseResults(rep, sres, map[string]bool{"no-arm": true}, "A-noarm", 12)
+	ruleSENFollow(prog, rep)
 	ruleReaderLoops(prog, rep)
 }
 
